@@ -67,6 +67,13 @@ def build(rec):
     ctor = rec.get("ctor", "add_simplex")
     if ids is None and ctor == "dict":
         ctor = "list"
+    if ids is None and ctor in ("list", "add_simplices_from") and facets and isinstance(facets[0][0], str) \
+            and not all(isinstance(x, str) for x in facets[0]):
+        # xgi's format detection reads a first simplex that starts with a str as (members, id[, attr]);
+        # that ambiguity of the input format is not C13's subject: put a number first
+        f = facets[0]
+        k = next(i for i, x in enumerate(f) if not isinstance(x, str))
+        facets[0] = [f[k]] + f[:k] + f[k + 1:]
     if ctor == "list" and not rec.get("nodes_first"):
         return xgi.SimplicialComplex(facets)
     if ctor == "dict" and not rec.get("nodes_first"):
@@ -104,16 +111,16 @@ def orientation(S, spec):
 
 
 def gen_recipe(rng, max_vertices=5, max_facets=3):
-    nv = rng.randint(1, max_vertices)
+    nv = min(max_vertices, rng.choice([1, 2, 3, 3, 4, 4, 4, 5, 5, 5, 5, 5]))
     scheme = rng.choice(sorted(LABEL_SCHEMES))
     labels = LABEL_SCHEMES[scheme][:]
     if rng.random() < 0.4:
         rng.shuffle(labels)
     labels = labels[:nv]
-    nf = rng.randint(0, max_facets)
+    nf = min(max_facets, rng.choice([0, 1, 1, 2, 2, 2, 3, 3, 3, 3]))
     facets = []
     for _ in range(nf):
-        size = min(nv, rng.choice([1, 2, 2, 3, 3, 3, 4, 4, 5]))
+        size = min(nv, rng.choice([1, 2, 2, 3, 3, 3, 3, 4, 4, 4, 5]))
         f = rng.sample(labels, size)
         facets.append(f)
     idn = rng.choice(sorted(ID_SCHEMES))
@@ -519,7 +526,7 @@ def run(ctx):
         "characterisation ker L_0 = {x constant along every 1-simplex} is proved",
     ]
     return finish(ctx, trusted_base=TRUSTED_COMMON + [
-        "Python's list.sort(key=…) is a stable sort = List.mergeSort; itertools.combinations order = `combs`",
+        "Python's list.sort(key=…) is a stable sort (model: stable insertion sort by the same key); itertools.combinations order = `combs`",
         "fractions.Fraction Gaussian elimination and a union-find in the harness (kernel-vs-components clause)"])
 
 
